@@ -42,6 +42,7 @@ type Config struct {
 	RefuseResend      map[int]bool
 	VirtualTimers     bool
 	Timed             bool // virtual clock: tick events, timers fire only when due
+	AppResetFlag      bool // the application's ToAdmin callback sets ResetSeqNumFlag=Y on every outgoing Logon
 	SenderSub         string
 	TargetSub         string
 }
@@ -205,7 +206,14 @@ func (a *recApp) OnLogon(quickfix.SessionID) {
 func (a *recApp) OnLogout(quickfix.SessionID) {
 	a.w.log = append(a.w.log, Obs{K: "OnLogout"})
 }
-func (a *recApp) ToAdmin(m *quickfix.Message, _ quickfix.SessionID) { a.hdr("ToAdmin", m) }
+func (a *recApp) ToAdmin(m *quickfix.Message, _ quickfix.SessionID) {
+	if a.w.Cfg.AppResetFlag {
+		if t, _ := m.Header.GetString(35); t == "A" {
+			m.Body.SetBool(141, true)
+		}
+	}
+	a.hdr("ToAdmin", m)
+}
 func (a *recApp) ToApp(m *quickfix.Message, _ quickfix.SessionID) error {
 	a.hdr("ToApp", m)
 	if pd, _ := m.Header.GetBool(43); pd {
@@ -795,6 +803,9 @@ func (w *World) timeKey() string {
 	}
 	return fmt.Sprintf("|dl%d,%d,%v", rel(w.ArmS, w.DeadS), rel(w.ArmP, w.DeadP), w.VS.Snapshot().HBDue)
 }
+
+// Stored returns what the store holds under seq (below the recorder).
+func (w *World) Stored(seq int) ([][]byte, error) { return w.store.MessageStore.GetMessages(seq, seq) }
 
 // Log returns the full ordered observation log.
 func (w *World) Log() []Obs { return w.log }
